@@ -43,6 +43,7 @@ SCEN = {
     'HdrInC': lambda inv=(): sc('MC_HdrInC', 3, 4, inv),
     'LenC': lambda inv=(): sc('MC_LenC', 3, 4, inv),
     'LenS': lambda inv=(): sc('MC_LenS', 4, 5, inv),
+    'LenC2': lambda inv=(): sc('MC_LenC2', 5, 6, inv),
     'PushS': lambda inv=(): sc('MC_PushS', 4, 5, inv),
     'PushC': lambda inv=(): sc('MC_PushC', 5, 6, inv),
     'FrameS': lambda inv=(): sc('MC_FrameS', 4, 5, inv),
@@ -92,7 +93,7 @@ PROPS = {
             'lens': [(['r', 'o'], S('call:hdr', 'call:push'))]},
     'C15': {'scenarios': scen('HdrInS HdrInC', ['P_C15_DeliveredBlocksConformant']),
             'lens': [(['r', 'e', 'o'], S('frame:HEADERS', 'frame:PP'))]},
-    'C16': {'scenarios': scen('LenC LenS', ['P_C16_ContentLength']),
+    'C16': {'scenarios': scen('LenC LenS LenC2', ['P_C16_ContentLength']),
             'lens': [(['r', 'e', 'o', 'z.streams.ecl', 'z.streams.acl', 'z.streams.meth'], S('frame:HEADERS', 'frame:DATA'))]},
     'C17': {'scenarios': scen('CloseS HdrInS HdrInC LifeC RawS RawC', ['OnlyKnownExceptions']),
             'lens': [(['r'], S('recv', 'dlv'))]},
